@@ -69,6 +69,37 @@ def hist_term(h):
     return "(%d, [%s])" % (g, ";\n ".join(steps))
 
 
+def closure_diff():
+    """Readable difference between the regenerated call-site lists (coq/Gen/Mutators.v) and the expected ones."""
+    import re
+
+    def lists(path, prefix):
+        txt = open(path).read()
+        out = {}
+        for name in ("sites", "delete_calls", "writer_args"):
+            m = re.search(r"Definition %s_%s\b.*?:= \[(.*?)\n\]\." % (prefix, name), txt, re.S)
+            out[name] = set(l.strip().rstrip(";") for l in m.group(1).splitlines() if l.strip()) if m else set()
+        return out
+    found = lists(os.path.join(ROOT, "coq", "Gen", "Mutators.v"), "found")
+    exp = lists(os.path.join(ROOT, "coq", "Chain", "MutatorsExpected.v"), "expected")
+    msgs = []
+    for name in found:
+        for l in sorted(found[name] - exp[name]):
+            direct = name == "writer_args" and re.search(r'database"\)$', l)
+            msgs.append("%s %s: %s" % ("DIRECT DATABASE WRITE through a writer parameter," if direct else "new", name, l))
+        for l in sorted(exp[name] - found[name]):
+            msgs.append("missing %s: %s" % (name, l))
+    return msgs
+
+
+def report_closure(ck):
+    msgs = closure_diff()
+    if msgs:
+        ck.fail_obligation("mutator-closure", "the code that can write the engine database is no longer the expected set — "
+                           + " | ".join(msgs[:8]))
+    return msgs
+
+
 def translate(ck):
     outp = os.path.join(ROOT, "coq", "Gen", "Mutators.v")
     rc, out = sh(["go", "run", "main.go", "-repo", REPO, "-out", outp], cwd=os.path.join(ROOT, "translate", "mutators"), env=GOENV,
@@ -114,6 +145,7 @@ def evaluate(ck, recs):
 
 def run(ck):
     translate(ck)
+    report_closure(ck)
     ck.prove(extra_targets=["Corr/C04.vo"])
     binp = ck.go_build("c04")
     if not binp:
